@@ -1,7 +1,7 @@
 """C12 - Skein hash, MAC and tree hash equal the Skein 1.3 specification."""
 import itertools
 from mc.engine import Sub, InternalError
-from mc.common import ramp, expander
+from mc.common import ramp, expander, zero_words
 from mc.refs import skein as RS
 
 NBS = (256, 512, 1024)
@@ -50,6 +50,9 @@ def run_len(ctx, pt):
                 o(b'\xa5' * (2 * nb + 3), bitlen=8 * (2 * nb + 3) - 5)
                 return o(M, bitlen=L)
             ctx.eq('%s/%s/reused-object' % (K, cls), ctx.attempt(second), ('ok', exp))
+        if L % 64 == 0 and L and kind == 0:
+            zm = zero_words(L // 8, 8, nb)
+            ctx.eq(K + '/byte-message/zero-words', ctx.attempt(lambda: mk(Nb, Nb)(zm)), ('ok', RS.skein(Nb, Nb, zm)))
         if L and kind == 0:
             for extra in (1, nb):
                 ctx.eq(K + '/prefix-of-longer-container', ctx.attempt(lambda: mk(Nb, Nb)(M + b'\x5a' * extra, bitlen=L)), ('ok', exp))
